@@ -13,3 +13,4 @@ UNDECIDED = "the schedule quantifier itself: no interleaving is explored or mode
 ASSUMPTIONS = ["futures::mpsc, crossbeam_channel, VecDeque are FIFO", "a moved Rust value has a single owner", K.A_PRED]
 OBLIGATIONS = [K.HANDOVER, K.QUEUES, K.FORBIDDEN, K.SOURCE_SIBS, K.WRITER_SIBS, K.OPTION_TAINT, K.WRITE_DATA, K.STAGING_TYPES, K.MAILBOX, K.WRITER_LAYOUT[4]]
 OBLIGATIONS = OBLIGATIONS + [K.WITNESSES]
+OBLIGATIONS = OBLIGATIONS + [K.STREAM_SIBS]
